@@ -16,7 +16,7 @@ STUBS = []
 OUTSIDE = ["per_instance=False parameters", "copy.copy of instances", "Selector values passed as constructor keywords (check_on_set=False "
            "appends them to the objects in place, documented behaviour of Selector)", "more than 2 instances, 2 classes"]
 ASSUMPTIONS = ["values symbolic ints; bounds edits (v, 100) with v < 100"]
-N_OPS = 11
+N_OPS = 12
 
 
 def prog(inst_l: bool, k: int, o1: int, t1: int, v1: int, o2: int, t2: int, v2: int, o3: int, t3: int, v3: int,
@@ -27,6 +27,9 @@ def prog(inst_l: bool, k: int, o1: int, t1: int, v1: int, o2: int, t2: int, v2: 
             l = param.List(default=[0], instantiate=inst_l, allow_refs=True)
             c = param.Parameter(default=None, constant=True)
             s = param.Selector(objects=[], check_on_set=False)
+
+            def __len__(self):         # instances are falsy (an empty container): None and "empty" must not be confused
+                return 0
 
         class B(A):
             pass
@@ -67,12 +70,15 @@ def prog(inst_l: bool, k: int, o1: int, t1: int, v1: int, o2: int, t2: int, v2: 
             assume(len(objs) < 2)
             objs.append(classes[t](l=skipping_ref))
             insts.append(dict(k=t, x=None, l=(list(shared_l) if inst_l else shared_l), b='cls', c=cls_cval(t), so=[]))
-        elif o == 1:   # instance set x
+        elif o in (1, 11):   # instance set x (attribute / update route)
             assume(len(objs) > t)
             b = insts[t]['b']
             ok = True if b == 'cls' else (b[0] <= v <= b[1])
             try:
-                objs[t].x = v
+                if o == 1:
+                    objs[t].x = v
+                else:
+                    objs[t].param.update(x=v)
                 acc = True
             except ValueError:
                 acc = False
@@ -163,4 +169,5 @@ def bounds(tier):
     return dict(program_length=3 if tier == 'quick' else 4, instances=2, classes=2, instantiate=[False, True],
                 opcodes=['create instance', 'instance set x', 'class set x', 'in-place append', 'per-instance bounds edit',
                          'class-level Parameter attribute edit', 'per-instance Selector.objects append',
-                         'assign the identical current class default', 'class-level reassignment of the constant', 'create with kwarg', 'create with a skipping reference for the list'])
+                         'assign the identical current class default', 'class-level reassignment of the constant', 'create with kwarg', 'create with a skipping reference for the list', 'instance update(x=v)'],
+                instance_truthiness='falsy (__len__ returns 0)')
